@@ -103,6 +103,23 @@ func init() {
 		NotCovered: "equality of two replicas is never observed; arithmetic of rewards, epoch boundaries, what InitializeCache computes, flush timing, backend differences, third-party nondeterminism",
 	})
 	register(&PropertySpec{
+		ID: "C10",
+		Rules: []RuleSpec{
+			{"append-alias", "no append(node.field, ...) in package mpt whose result leaves the field (it would write into the spare capacity a node key shares with the path/batch array it was sliced from)", ruleAppendAlias},
+			{"mpt-reader", "Trie methods read node records only through the mode-aware getFromStore (reads after reload agree with content in every trie mode)", ruleMPTReader},
+		},
+		NotCovered: "history independence as such, batch/restructuring correctness, ordered traversal, completeness of proofs",
+	})
+	register(&PropertySpec{
+		ID: "C11",
+		Rules: []RuleSpec{
+			{"mpt-reader", "Trie methods read node records only through the mode-aware getFromStore, which reports inactive records as (nil, not found); the reference-count suffix is written and read in one format", ruleMPTReader},
+			{"store-value-immutable", "Trie methods never modify in place a slice obtained from the store (counter updates work on a copy), so a trie computed over a private layer and dropped leaves stored records untouched", ruleStoreValueImmutable},
+			{"rc-writers", "node records reach the store only through the tabled count-folding writers; the GC pass deletes a record only if it is inactive and not newer than the GC height", ruleRCWriters},
+		},
+		NotCovered: "that counts equal occurrences (pairing per operation is not the global sum), the shared refcount map across per-block copies, Billet's restore counts",
+	})
+	register(&PropertySpec{
 		ID: "C07",
 		Rules: []RuleSpec{
 			{"admit-dominators", "every admission check of verifyAndPoolTx (script, expiry, VUB window, policy, size, network fee, on-chain/conflict record, witnesses with the remaining fee, attributes) gates pool.Add on every CFG path", ruleAdmitDominators},
